@@ -452,16 +452,14 @@ class FmtStr:
     def splitlines(self, keepends: bool = False) -> List["FmtStr"]:
         """Return a list of lines, split on newline characters,
         include line boundaries, if keepends is true."""
-        lines = self.split("\n")
-        if keepends:
-            # slice again so that every line keeps its own newline character
-            starts = [0]
-            for line in lines[:-1]:
-                starts.append(starts[-1] + len(line) + 1)
-            lines = [
-                self[start:end] for start, end in zip(starts, starts[1:] + [len(self)])
-            ]
-        return lines if lines[-1] else lines[:-1]
+        # the plain text decides where lines end (str.splitlines knows more line
+        # boundaries than "\n"), each line is then sliced out with its formatting
+        lines = []
+        start = 0
+        for kept, bare in zip(self.s.splitlines(True), self.s.splitlines()):
+            lines.append(self[start : start + len(kept if keepends else bare)])
+            start += len(kept)
+        return lines
 
     # proxying to the string via __getattr__ is insufficient
     # because we shouldn't drop foreground or formatting info
